@@ -1,0 +1,149 @@
+//go:build verif
+
+// Contracts for package sstables, read by the govc verifier (/verif). This file contains comments only:
+// with the build tag off it is not compiled, with the tag on it adds no declarations.
+package sstables
+
+// ---------------------------------------------------------------------------------------------------
+// Iterator vocabulary: an iterator object delivers the sequence (itKey(it,i), itVal(it,i)) for
+// i = 0,1,...; its i-th call to Next returns the error itErr(it,i) (nil, Done, or an I/O error).
+// itPos(it) is the number of calls made so far.
+
+//@ ghost itPos(it Ref) Int
+//@ spec func itErr(it Ref, i Int) Err
+//@ spec func itKey(it Ref, i Int) Slice
+//@ spec func itVal(it Ref, i Int) Slice
+
+//@ iface SSTableIteratorI.Next
+//@   ensures [step] itPos(this) == old(itPos(this)) + 1
+//@   ensures [err] r2 == itErr(this, old(itPos(this)))
+//@   ensures [kv] r2 == nil ==> r0 === itKey(this, old(itPos(this))) && r1 === itVal(this, old(itPos(this)))
+//@   modifies itPos(this)
+
+// Writer vocabulary: the i-th call of WriteNext on w returns wErr(w,i); wCount(w) calls were made so far.
+
+//@ ghost wCount(w Ref) Int
+//@ spec func wErr(w Ref, i Int) Err
+//@ spec func wKey(w Ref, i Int) Slice
+//@ spec func wVal(w Ref, i Int) Slice
+
+//@ iface SSTableStreamWriterI.WriteNext
+//@   ensures [step] wCount(this) == old(wCount(this)) + 1
+//@   ensures [err] r0 == wErr(this, old(wCount(this)))
+//@   modifies wCount(this)
+
+// ---------------------------------------------------------------------------------------------------
+// C11 / C08: the adapter from a table iterator to a priority-queue input must not absorb errors.
+
+//@ func (SSTableMergeIteratorContext).Next
+//@   props C11 C08
+//@   replay merge_iterator_context_next
+//@   ensures [done-maps-to-done] errIs(itErr(s.iterator, old(itPos(s.iterator))), Done) ==> r2 == pq.Done
+//@   ensures [ok-passes-through] itErr(s.iterator, old(itPos(s.iterator))) == nil ==>
+//@           r2 == nil && r0 === itKey(s.iterator, old(itPos(s.iterator))) && r1 === itVal(s.iterator, old(itPos(s.iterator)))
+//@   ensures [error-propagates] itErr(s.iterator, old(itPos(s.iterator))) != nil && !errIs(itErr(s.iterator, old(itPos(s.iterator))), Done) ==>
+//@           r2 != nil && errIs(r2, itErr(s.iterator, old(itPos(s.iterator)))) &&
+//@           (errIs(r2, pq.Done) ==> errIs(itErr(s.iterator, old(itPos(s.iterator))), pq.Done))
+//@   ensures [one-step] itPos(s.iterator) == old(itPos(s.iterator)) + 1
+//@   modifies itPos(s.iterator)
+
+//@ func (SSTableMergeIteratorContext).Context
+//@   props C08
+//@   ensures r0 == s.ctx
+//@   modifies nothing
+
+//@ func NewMergeIteratorContext
+//@   props C08
+//@   ensures r0.ctx == context && r0.iterator == iterator
+//@   modifies nothing
+
+// ---------------------------------------------------------------------------------------------------
+// C06 / C08: the reductions used by scans, merges and compaction.
+
+//@ func ScanReduceLatestWins
+//@   props C06 C08
+//@   replay scan_reduce
+//@   requires len(values) == len(context) && len(context) > 0
+//@   requires forall i :: 0 <= i && i < len(context) ==> context[i] >= 0
+//@   ensures [key] r0 === key
+//@   ensures [picks-max] exists m :: 0 <= m && m < len(context) && r1 === values[m] &&
+//@           (forall i :: 0 <= i && i < len(context) ==> context[i] <= context[m])
+//@   modifies nothing
+//@   safety on
+//@   loop 0
+//@     invariant 0 <= iter && iter <= len(context)
+//@     invariant 0 <= maxCtxIndex && maxCtxIndex < len(context)
+//@     invariant maxCtx >= 0
+//@     invariant forall i :: 0 <= i && i < iter ==> context[i] <= maxCtx
+//@     invariant maxCtx == context[maxCtxIndex] || (maxCtx == 0 && maxCtxIndex == 0)
+
+//@ func ScanReduceLatestWinsSkipTombstones
+//@   props C06 C08
+//@   requires len(values) == len(context) && len(context) > 0
+//@   requires forall i :: 0 <= i && i < len(context) ==> context[i] >= 0
+//@   ensures [tombstone-dropped] exists m :: 0 <= m && m < len(context) &&
+//@           (forall i :: 0 <= i && i < len(context) ==> context[i] <= context[m]) &&
+//@           (len(values[m]) == 0 ==> isnil(r0) && isnil(r1)) &&
+//@           (len(values[m]) != 0 ==> r0 === key && r1 === values[m])
+//@   modifies nothing
+
+// ---------------------------------------------------------------------------------------------------
+// C11: merging. Every record the merge iterator yields is handed to the writer, in order; an error of the
+// iterator (other than Done) or of the writer makes the merge return an error.
+
+//@ fnvalue MergeCompactionIterator.reduce
+//@   pure
+
+//@ func (SSTableMerger).MergeCompactIterator
+//@   props C11
+//@   ensures [fresh-iterator] r1 == nil ==> r0 != nil && itPos(r0) == 0
+//@   fresh r0
+//@   modifies inPos(*), itPos(*)
+//@   loop 0
+//@     invariant isnil(iteratorWithContext) || fresh(iteratorWithContext)
+
+//@ func (SSTableMerger).MergeCompact
+//@   props C11 C08
+//@   replay merge_compact_faults
+//@   ensures [write-errors-reported] err == nil ==>
+//@           forall i :: old(wCount(writer)) <= i && i < wCount(writer) ==> wErr(writer, i) == nil
+//@   exit [input-errors-reported] err == nil ==> itPos(iterator) >= 1 && errIs(itErr(iterator, itPos(iterator) - 1), Done) &&
+//@           (forall i :: 0 <= i && i < itPos(iterator) - 1 ==> itErr(iterator, i) == nil)
+//@   exit [every-record-written] err == nil ==> wCount(writer) - old(wCount(writer)) == itPos(iterator) - 1
+//@   modifies wCount(writer), inPos(*), itPos(*)
+//@   loop 0
+//@     invariant iterator != nil && 0 <= itPos(iterator)
+//@     invariant forall i :: 0 <= i && i < itPos(iterator) ==> itErr(iterator, i) == nil
+//@     invariant wCount(writer) - old(wCount(writer)) == itPos(iterator)
+//@     invariant forall i :: old(wCount(writer)) <= i && i < wCount(writer) ==> wErr(writer, i) == nil
+
+//@ func (SSTableMerger).Merge
+//@   props C11 C08
+//@   replay merge_compact_faults
+//@   ensures [write-errors-reported] err == nil ==>
+//@           forall i :: old(wCount(writer)) <= i && i < wCount(writer) ==> wErr(writer, i) == nil
+//@   exit [input-errors-reported] err == nil ==> qPos(pqq) >= 1 && errIs(qErr(pqq, qPos(pqq) - 1), pq.Done) &&
+//@           (forall i :: 0 <= i && i < qPos(pqq) - 1 ==> qErr(pqq, i) == nil)
+//@   exit [every-record-written] err == nil ==> wCount(writer) - old(wCount(writer)) == qPos(pqq) - 1
+//@   modifies wCount(writer), inPos(*), itPos(*), qPos(*)
+//@   loop 0
+//@     invariant isnil(iteratorWithContext) || fresh(iteratorWithContext)
+//@   loop 1
+//@     invariant pqq != nil && 0 <= qPos(pqq)
+//@     invariant forall i :: 0 <= i && i < qPos(pqq) ==> qErr(pqq, i) == nil
+//@     invariant wCount(writer) - old(wCount(writer)) == qPos(pqq)
+//@     invariant forall i :: old(wCount(writer)) <= i && i < wCount(writer) ==> wErr(writer, i) == nil
+
+// The merge iterator reports every queue error other than Done, and never reports Done while the queue failed.
+
+//@ func (*MergeCompactionIterator).Next
+//@   props C11
+//@   ensures [queue-errors-reported] forall j :: old(qPos(m.pq)) <= j && j < qPos(m.pq) && qErr(m.pq, j) != nil && !errIs(qErr(m.pq, j), pq.Done) ==>
+//@           r2 != nil && errIs(r2, qErr(m.pq, j)) && (errIs(r2, Done) ==> errIs(qErr(m.pq, j), Done))
+//@   ensures [done-only-after-queue-done] r2 == Done ==> qPos(m.pq) > old(qPos(m.pq)) &&
+//@           (errIs(qErr(m.pq, qPos(m.pq) - 1), pq.Done) || qErr(m.pq, qPos(m.pq) - 1) == Done)
+//@   modifies qPos(m.pq), m.prevKey, m.valBuf, m.ctxBuf, *
+//@   loop 0
+//@     invariant old(qPos(m.pq)) <= qPos(m.pq)
+//@     invariant forall j :: old(qPos(m.pq)) <= j && j < qPos(m.pq) ==> qErr(m.pq, j) == nil
+//@     invariant m.pq == old(m.pq)
